@@ -242,10 +242,41 @@ def apply_or_template(rng, cfg, case):
     ax = g.atom()
     g.var_ids = [z]
     az = g.atom()
-    disj = ('or', join('a', 'a'), rng.choice([join('b', 'a'), join('a', 'b'), ax]))
-    case['cond'] = [rng.choice([('and', disj, az), ('and', az, disj)])] if rng.random() < 0.5 else \
-        ([disj, az] if rng.random() < 0.7 else [az, disj])
+    variant = rng.choice((0, 0, 1, 2))
+    if variant == 0:
+        disj = ('or', join('a', 'a'), rng.choice([join('b', 'a'), join('a', 'b'), ax]))
+        case['cond'] = [rng.choice([('and', disj, az), ('and', az, disj)])] if rng.random() < 0.5 else \
+            ([disj, az] if rng.random() < 0.7 else [az, disj])
+    else:
+        # the non-selected variable z is bound UPSTREAM, a de-duplicating operand that does not mention it comes in
+        # between, and a later operand needs it again (explicitly nested, not the flat chain)
+        g.var_ids = [x]
+        px, qx = g.atom(), g.atom()
+        g.var_ids = [z]
+        yz = g.atom()
+        if variant == 1:
+            case['cond'] = [('and', join('a', 'a'), ('and', ('or', px, qx), yz))]
+        else:
+            case['cond'] = [('and', az, ('or', ('and', px, qx), join('b', 'b')))]
     case['sel'] = [('var', x)] if rng.random() < 0.7 else [('var', v) for v in ids if v != z]
     case['entity'] = len(case['sel']) == 1 and rng.random() < 0.5
+    return case
+
+
+def apply_truth_operand_template(rng, case):
+    """Template: ONE attribute used twice in the same condition tree, as a bare truthiness condition (possibly negated)
+    and as a comparison operand - the two roles must not influence each other."""
+    v0 = case['vars'][0][0]
+    f = rng.choice(('b', 'b', 'flag', 'a'))
+    xa = ('attr', f, ('var', v0))
+    truth = ('truth', xa) if rng.random() < 0.7 else ('not', ('truth', xa))
+    if f == 'a':
+        cmpc = ('cmp', rng.choice(('ge', 'gt', 'eq')), xa, ('lit', ('i', rng.randint(0, 2))))
+    else:
+        cmpc = ('cmp', rng.choice(('eq', 'ne')), xa, ('lit', rng.choice(FALSY[:3] + [('i', 0), ('i', 1)])))
+    pair = [truth, cmpc]
+    rng.shuffle(pair)
+    case['cond'] = [rng.choice([('and',) + tuple(pair), ('or',) + tuple(pair),
+                                ('and', truth, ('not', truth)), ('or', truth, ('not', truth))])]
     return case
 
